@@ -745,6 +745,13 @@ pub fn setup() -> i32 {
         let st = Command::new("cargo").args(&a).current_dir(format!("{root}/{dir}")).env("CARGO_NET_OFFLINE", "true").stdin(Stdio::null()).status();
         println!("setup: cargo {} in {dir}: {:?}", args[0], st.map(|s| s.success()));
     }
+    let st = Command::new("cargo")
+        .args(["build", "--offline", "--quiet", "--target-dir", &format!("{root}/target/deeprec")])
+        .current_dir(format!("{root}/probes/deeprec"))
+        .env("CARGO_NET_OFFLINE", "true")
+        .stdin(Stdio::null())
+        .status();
+    println!("setup: cargo build in probes/deeprec: {:?}", st.map(|s| s.success()));
     0
 }
 
